@@ -17,3 +17,13 @@ package builtin
 //@ func (*ti/builtin.defineBuiltinMethod).defineBuiltinStaticMethod
 //@   sitesonly
 //@   callsite[C19] append existingT == ownClassMethod(frame, d.targetClass, method)
+
+//@ # ---- C20: the loader registers exactly what a file declares ----
+//@ # A class is registered under the frame and the (unqualified) name its file declares; a file
+//@ # whose class name is namespace-qualified is not registered at all.  The decoded declaration is
+//@ # never rewritten by the loader.
+//@ func ti/builtin.loadBuiltinFromJSON
+//@   sitesonly
+//@   callsite[C20] NewDefineBuiltinMethod a_frame == classDef.Frame && a_class == classDef.Class && !base.IsNameSpace(a_class)
+//@ writers[C20] ti/builtin.ClassDefinition.Frame -
+//@ writers[C20] ti/builtin.ClassDefinition.Class -
